@@ -1,6 +1,6 @@
 /-
   PINS of property C14: the decision tokens of every item the property is anchored in
-  (properties.jsonl `anchors` + tools/anchor_extra.json), as they were in /repo at b30ed81 when the
+  (properties.jsonl `anchors` + tools/anchor_extra.json), as they were in /repo at 770977e when the
   model was validated against the source.  Written by tools/pin_anchors.py; the right-hand sides are
   compared by the kernel with lean/Chrono/Extracted/Anchors.lean, which tools/extractors/anchors.py
   regenerates from /repo's working tree on every check.  A theorem that fails here means: anchored
@@ -9,6 +9,10 @@
 import Chrono.Extracted.Anchors
 namespace Chrono.Pins.C14
 open Chrono.Extracted.Anchors
+
+/-- src/datetime/mod.rs:fn from_timestamp -/
+theorem src_datetime_mod_rs_fn_from_timestamp : C14_src_datetime_mod_rs_fn_from_timestamp =
+    ["v1", "i64", "v2", "u32", "->", "Option", "<", "Self", ">", "v3", "v1", "div_euclid(", "86400", "+", "UNIX_EPOCH_DAY", "v1", "v1", "rem_euclid(", "86400", "if", "v3", "<", "i32", "MIN", "as", "i64", "||", "v3", ">", "i32", "MAX", "as", "i64", "return", "None", "v4", "try_opt!(", "NaiveDate", "from_num_days_from_ce_opt(", "v3", "as", "i32", "v5", "try_opt!(", "NaiveTime", "from_num_seconds_from_midnight_opt(", "v1", "as", "u32", "v2", "Some(", "v4", "and_time(", "v5", "and_utc("] := by decide +kernel
 
 /-- src/format/parsed.rs:fn resolve_week_date -/
 theorem src_format_parsed_rs_fn_resolve_week_date : C14_src_format_parsed_rs_fn_resolve_week_date =
@@ -134,9 +138,29 @@ theorem src_format_parsed_rs_fn_to_naive_datetime_with_offset : C14_src_format_p
 theorem src_format_parsed_rs_fn_to_naive_time : C14_src_format_parsed_rs_fn_to_naive_time =
     ["&", "self", "->", "ParseResult", "<", "NaiveTime", ">", "v1", "match", "self", "v1", "Some(", "v2", "0", "..=", "1", "=>", "v2", "Some(", "v3", "=>", "return", "Err(", "OUT_OF_RANGE", "None", "=>", "return", "Err(", "NOT_ENOUGH", "v4", "match", "self", "v4", "Some(", "v2", "0", "..=", "11", "=>", "v2", "Some(", "v3", "=>", "return", "Err(", "OUT_OF_RANGE", "None", "=>", "return", "Err(", "NOT_ENOUGH", "v5", "v1", "*", "12", "+", "v4", "v6", "match", "self", "v6", "Some(", "v2", "0", "..=", "59", "=>", "v2", "Some(", "v3", "=>", "return", "Err(", "OUT_OF_RANGE", "None", "=>", "return", "Err(", "NOT_ENOUGH", "let(", "v7", "v8", "match", "self", "v7", "unwrap_or(", "0", "v2", "0", "..=", "59", "=>", "v2", "0", "60", "=>", "59", "1000000000", "v3", "=>", "return", "Err(", "OUT_OF_RANGE", "v8", "+=", "match", "self", "v9", "Some(", "v2", "0", "..=", "999999999", "if", "self", "v7", "is_some(", "=>", "v2", "Some(", "0", "..=", "999999999", "=>", "return", "Err(", "NOT_ENOUGH", "Some(", "v3", "=>", "return", "Err(", "OUT_OF_RANGE", "None", "=>", "0", "NaiveTime", "from_hms_nano_opt(", "v5", "v6", "v7", "v8", "ok_or(", "OUT_OF_RANGE"] := by decide +kernel
 
+/-- src/naive/date/mod.rs:fn iso_week -/
+theorem src_naive_date_mod_rs_fn_iso_week : C14_src_naive_date_mod_rs_fn_iso_week =
+    ["&", "self", "->", "IsoWeek", "IsoWeek", "from_yof(", "self", "year(", "self", "ordinal(", "self", "year_flags("] := by decide +kernel
+
+/-- src/naive/date/mod.rs:fn with_ordinal -/
+theorem src_naive_date_mod_rs_fn_with_ordinal : C14_src_naive_date_mod_rs_fn_with_ordinal =
+    ["&", "self", "v1", "u32", "->", "Option", "<", "NaiveDate", ">", "if", "v1", "==", "0", "||", "v1", ">", "366", "return", "None", "v2", "self", "yof(", "&", "!", "ORDINAL_MASK", "|", "v1", "<<", "4", "as", "i32", "match", "v2", "&", "OL_MASK", "<=", "MAX_OL", "true", "=>", "Some(", "NaiveDate", "from_yof(", "v2", "false", "=>", "None"] := by decide +kernel
+
+/-- src/naive/datetime/mod.rs:fn checked_sub_signed -/
+theorem src_naive_datetime_mod_rs_fn_checked_sub_signed : C14_src_naive_datetime_mod_rs_fn_checked_sub_signed =
+    ["self", "v1", "TimeDelta", "->", "Option", "<", "NaiveDateTime", ">", "let(", "v2", "v3", "self", "v2", "overflowing_sub_signed(", "v1", "v3", "try_opt!(", "TimeDelta", "try_seconds(", "v3", "v4", "try_opt!(", "self", "v4", "checked_sub_signed(", "v3", "Some(", "NaiveDateTime", "v4", "v2"] := by decide +kernel
+
+/-- src/traits.rs:fn quarter -/
+theorem src_traits_rs_fn_quarter : C14_src_traits_rs_fn_quarter =
+    ["&", "self", "->", "u32", "self", "month(", "-", "1", "div_euclid(", "3", "+", "1"] := by decide +kernel
+
 /-- callee src/datetime/mod.rs:fn from_naive_utc_and_offset -/
 theorem callee_src_datetime_mod_rs_fn_from_naive_utc_and_offset : C14_callee_src_datetime_mod_rs_fn_from_naive_utc_and_offset =
     ["v1", "NaiveDateTime", "v2", "Tz", "Offset", "->", "DateTime", "<", "Tz", ">", "DateTime", "v1", "v2"] := by decide +kernel
+
+/-- callee src/naive/date/mod.rs:fn cycle_to_yo -/
+theorem callee_src_naive_date_mod_rs_fn_cycle_to_yo : C14_callee_src_naive_date_mod_rs_fn_cycle_to_yo =
+    ["v1", "u32", "->", "u32", "u32", "v2", "v1", "/", "365", "v3", "v1", "%", "365", "v4", "YEAR_DELTAS", "v2", "as", "usize", "as", "u32", "if", "v3", "<", "v4", "v2", "-=", "1", "v3", "+=", "365", "-", "YEAR_DELTAS", "v2", "as", "usize", "as", "u32", "else", "v3", "-=", "v4", "v2", "v3", "+", "1"] := by decide +kernel
 
 /-- callee src/naive/date/mod.rs:fn from_isoywd_opt -/
 theorem callee_src_naive_date_mod_rs_fn_from_isoywd_opt : C14_callee_src_naive_date_mod_rs_fn_from_isoywd_opt =
@@ -145,6 +169,10 @@ theorem callee_src_naive_date_mod_rs_fn_from_isoywd_opt : C14_callee_src_naive_d
 /-- callee src/naive/date/mod.rs:fn from_mdf -/
 theorem callee_src_naive_date_mod_rs_fn_from_mdf : C14_callee_src_naive_date_mod_rs_fn_from_mdf =
     ["v1", "i32", "v2", "Mdf", "->", "Option", "<", "NaiveDate", ">", "if", "v1", "<", "MIN_YEAR", "||", "v1", ">", "MAX_YEAR", "return", "None", "Some(", "NaiveDate", "from_yof(", "v1", "<<", "13", "|", "try_opt!(", "v2", "ordinal_and_flags("] := by decide +kernel
+
+/-- callee src/naive/date/mod.rs:fn from_num_days_from_ce_opt -/
+theorem callee_src_naive_date_mod_rs_fn_from_num_days_from_ce_opt : C14_callee_src_naive_date_mod_rs_fn_from_num_days_from_ce_opt =
+    ["v1", "i32", "->", "Option", "<", "NaiveDate", ">", "v1", "try_opt!(", "v1", "checked_add(", "365", "v2", "v1", "div_euclid(", "146097", "v3", "v1", "rem_euclid(", "146097", "let(", "v4", "v5", "cycle_to_yo(", "v3", "as", "u32", "v6", "YearFlags", "from_year_mod_400(", "v4", "as", "i32", "NaiveDate", "from_ordinal_and_flags(", "v2", "*", "400", "+", "v4", "as", "i32", "v5", "v6"] := by decide +kernel
 
 /-- callee src/naive/date/mod.rs:fn from_ordinal_and_flags -/
 theorem callee_src_naive_date_mod_rs_fn_from_ordinal_and_flags : C14_callee_src_naive_date_mod_rs_fn_from_ordinal_and_flags =
@@ -161,6 +189,10 @@ theorem callee_src_naive_date_mod_rs_fn_from_yo_opt : C14_callee_src_naive_date_
 /-- callee src/naive/date/mod.rs:fn weeks_from -/
 theorem callee_src_naive_date_mod_rs_fn_weeks_from : C14_callee_src_naive_date_mod_rs_fn_weeks_from =
     ["&", "self", "v1", "Weekday", "->", "i32", "self", "ordinal(", "as", "i32", "-", "self", "weekday(", "days_since(", "v1", "as", "i32", "+", "6", "/", "7"] := by decide +kernel
+
+/-- callee src/naive/date/mod.rs:fn yof -/
+theorem callee_src_naive_date_mod_rs_fn_yof : C14_callee_src_naive_date_mod_rs_fn_yof =
+    ["&", "self", "->", "i32", "self", "v1", "get("] := by decide +kernel
 
 /-- callee src/naive/datetime/mod.rs:fn and_utc -/
 theorem callee_src_naive_datetime_mod_rs_fn_and_utc : C14_callee_src_naive_datetime_mod_rs_fn_and_utc =
@@ -198,6 +230,18 @@ theorem callee_src_naive_internals_rs_fn_ordinal_and_flags : C14_callee_src_naiv
 theorem callee_src_naive_time_mod_rs_fn_from_hms_nano_opt : C14_callee_src_naive_time_mod_rs_fn_from_hms_nano_opt =
     ["v1", "u32", "v2", "u32", "v3", "u32", "v4", "u32", "->", "Option", "<", "NaiveTime", ">", "if(", "v1", ">=", "24", "||", "v2", ">=", "60", "||", "v3", ">=", "60", "||", "v4", ">=", "1000000000", "&&", "v3", "!=", "59", "||", "v4", ">=", "2000000000", "return", "None", "v5", "v1", "*", "3600", "+", "v2", "*", "60", "+", "v3", "Some(", "NaiveTime", "v5", "v6", "v4"] := by decide +kernel
 
+/-- callee src/naive/time/mod.rs:fn from_num_seconds_from_midnight_opt -/
+theorem callee_src_naive_time_mod_rs_fn_from_num_seconds_from_midnight_opt : C14_callee_src_naive_time_mod_rs_fn_from_num_seconds_from_midnight_opt =
+    ["v1", "u32", "v2", "u32", "->", "Option", "<", "NaiveTime", ">", "if", "v1", ">=", "86400", "||", "v2", ">=", "2000000000", "||", "v2", ">=", "1000000000", "&&", "v1", "%", "60", "!=", "59", "return", "None", "Some(", "NaiveTime", "v1", "v3", "v2"] := by decide +kernel
+
+/-- callee src/naive/time/mod.rs:fn overflowing_add_signed -/
+theorem callee_src_naive_time_mod_rs_fn_overflowing_add_signed : C14_callee_src_naive_time_mod_rs_fn_overflowing_add_signed =
+    ["&", "self", "v1", "TimeDelta", "->", "NaiveTime", "i64", "v2", "self", "v2", "as", "i64", "v3", "self", "v3", "as", "i32", "v4", "v1", "num_seconds(", "v5", "v1", "subsec_nanos(", "if", "v3", ">=", "1000000000", "if", "v4", ">", "0", "||", "v5", ">", "0", "&&", "v3", ">=", "2000000000", "-", "v5", "v3", "-=", "1000000000", "else", "if", "v4", "<", "0", "v3", "-=", "1000000000", "v2", "+=", "1", "else", "return(", "NaiveTime", "v2", "self", "v2", "v3", "v3", "+", "v5", "as", "u32", "0", "v2", "v2", "+", "v4", "v3", "+=", "v5", "if", "v3", "<", "0", "v3", "+=", "1000000000", "v2", "-=", "1", "else", "if", "v3", ">=", "1000000000", "v3", "-=", "1000000000", "v2", "+=", "1", "v6", "v2", "rem_euclid(", "86400", "v7", "v2", "-", "v6", "NaiveTime", "v2", "v6", "as", "u32", "v3", "v3", "as", "u32", "v7"] := by decide +kernel
+
+/-- callee src/naive/time/mod.rs:fn overflowing_sub_signed -/
+theorem callee_src_naive_time_mod_rs_fn_overflowing_sub_signed : C14_callee_src_naive_time_mod_rs_fn_overflowing_sub_signed =
+    ["&", "self", "v1", "TimeDelta", "->", "NaiveTime", "i64", "let(", "v2", "v1", "self", "overflowing_add_signed(", "v1", "neg(", "v2", "-", "v1"] := by decide +kernel
+
 /-- callee src/offset/fixed.rs:fn east_opt -/
 theorem callee_src_offset_fixed_rs_fn_east_opt : C14_callee_src_offset_fixed_rs_fn_east_opt =
     ["v1", "i32", "->", "Option", "<", "FixedOffset", ">", "if", "-", "86400", "<", "v1", "&&", "v1", "<", "86400", "Some(", "FixedOffset", "v2", "v1", "else", "None"] := by decide +kernel
@@ -209,6 +253,14 @@ theorem callee_src_offset_fixed_rs_fn_local_minus_utc : C14_callee_src_offset_fi
 /-- callee src/offset/mod.rs:fn from_local_datetime -/
 theorem callee_src_offset_mod_rs_fn_from_local_datetime : C14_callee_src_offset_mod_rs_fn_from_local_datetime =
     ["&", "self", "v1", "&", "NaiveDateTime", "->", "MappedLocalTime", "<", "DateTime", "<", "Self", ">>", "self", "offset_from_local_datetime(", "v1", "and_then(", "|", "v2", "|", "v1", "checked_sub_offset(", "v2", "fix(", "map(", "|", "v3", "|", "DateTime", "from_naive_utc_and_offset(", "v3", "v2"] := by decide +kernel
+
+/-- callee src/time_delta.rs:fn num_seconds -/
+theorem callee_src_time_delta_rs_fn_num_seconds : C14_callee_src_time_delta_rs_fn_num_seconds =
+    ["&", "self", "->", "i64", "if", "self", "v1", "<", "0", "&&", "self", "v2", ">", "0", "self", "v1", "+", "1", "else", "self", "v1"] := by decide +kernel
+
+/-- callee src/time_delta.rs:fn subsec_nanos -/
+theorem callee_src_time_delta_rs_fn_subsec_nanos : C14_callee_src_time_delta_rs_fn_subsec_nanos =
+    ["&", "self", "->", "i32", "if", "self", "v1", "<", "0", "&&", "self", "v2", ">", "0", "self", "v2", "-", "NANOS_PER_SEC", "else", "self", "v2"] := by decide +kernel
 
 /-- callee src/time_delta.rs:fn try_seconds -/
 theorem callee_src_time_delta_rs_fn_try_seconds : C14_callee_src_time_delta_rs_fn_try_seconds =
